@@ -1003,7 +1003,7 @@ PROPS["C06"] = dict(
     rule="(format, target type or pump, bytes); non-trivial = input of at least 3 bytes; distinct by payload",
     trusted_base=_OBJ_TB,
     assumptions=["time budget 10 s per input as hang detector"],
-    suites=[("untrusted", dict(cmp=cmp_c06, nontrivial=lambda p, i, m: len(p.split("|")[1].strip()) >= 6, shrink=False, timeout=7200,
+    suites=[("untrusted", dict(sync=True, cmp=cmp_c06, nontrivial=lambda p, i, m: len(p.split("|")[1].strip()) >= 6, shrink=False, timeout=7200,
                                what="refmt.UnmarshalAtlased into untyped/typed targets and TokenPump into the other format on adversarial and random bytes: class (ok/err/panic/hang) vs the model; measured allocation vs bound"))],
 )
 
